@@ -265,6 +265,21 @@ def server_refusals(ctx, h, rng):
             judge(ctx, h, "toggle", res, mux, case, "download")
             h.unchanged(snap, case, "toggle")
             h.flush(case)
+            if nseg:
+                # the commonest cause of a wrong toggle bit: the previous segment arrives a second time, byte for byte
+                case = case_of("toggle", vm, variant=f"download-repeated-segment-after-{nseg}")
+                snap = h.snapshot()
+                c.exchange(struct.pack("<BHBL", 0x21, mux[0], mux[1], 40), step="dl_init")
+                t, last = 0, None
+                for _ in range(nseg):
+                    last = bytes([t << 4]) + rng.choice([b"ABCDEFG", bytes(7), b"\x55" * 7])
+                    c.exchange(last, step="dl_seg")
+                    t ^= 1
+                r = c.exchange(last, step="dl_seg")
+                res = c._abort_info(r, mux, "dl_seg") if r is not None and r[0] == 0x80 else ("no-abort", r)
+                judge(ctx, h, "toggle", res, mux, case, "download-repeat")
+                h.unchanged(snap, case, "toggle")
+                h.flush(case)
         after()
     # ---- unknown specifier and unsupported block download
     for _ in range(4):
